@@ -518,8 +518,14 @@ class StmtMixin:
         for i, inv in enumerate(spec.invariant):
             self.oblige(st, "inv-init", f"#{ordn}.{i}", self.spec_goal(inv, st, ghost0),
                         descr=f"loop invariant {inv!r} on entry", node=s)
+        def _dry_bind(dry):
+            dry = self.bind_target(dry, s.target, fresh(d.et, "dry"))
+            dry = dry.fork()
+            for k_, v_ in ghost0.items():
+                dry.frame.locals["outer" + k_] = fresh(v_.t, "dry")
+            return dry
         head = self.havoc_for_loop(st, s.body, [ast.Assign(targets=[s.target], value=ast.Constant(value=None))],
-                                   binder=lambda dry: self.bind_target(dry, s.target, fresh(d.et, "dry")))
+                                   binder=_dry_bind)
         if setlike:
             done = fresh(TSet(kt), "done")
             x = z3.Const(fresh_name("x"), zsort(kt))
@@ -547,7 +553,8 @@ class StmtMixin:
             st_in = self.assume_wf(st_in, el)
             st_b = self.bind_target(st_in, s.target, el)
             st_b = st_b.fork()
-            st_b.frame.locals.update({("$" + k_): v_ for k_, v_ in ghost.items()})
+            # the ghost loop variables of an enclosing loop stay visible to inner invariants as outer_i / outer_done ...
+            st_b.frame.locals.update({("outer" + k_): v_ for k_, v_ in ghost.items()})
             for o in self.exec_block(s.body, st_b):
                 if o.kind in ("ok", "cnt"):
                     for i, inv in enumerate(spec.invariant):
@@ -625,6 +632,20 @@ class StmtMixin:
             return
         item = s.items[0]
         ce = item.context_expr
+        if isinstance(ce, ast.Call) and isinstance(ce.func, ast.Attribute) and ce.func.attr == "suppress" \
+                and isinstance(ce.func.value, ast.Name) and ce.func.value.id == "contextlib":
+            # contextlib.suppress(E1, ...): exceptions of the listed classes raised by the body are swallowed
+            names = [a.attr if isinstance(a, ast.Attribute) else getattr(a, "id", "?") for a in ce.args]
+            for o in self.exec_block(s.body, st):
+                if o.kind == "exc":
+                    verdicts = [exc_is_subclass(o.val.name, b) for b in names]
+                    if any(v is True for v in verdicts):
+                        yield Outcome("ok", o.st)
+                        continue
+                    if any(v is None for v in verdicts):
+                        yield Outcome("ok", o.st)
+                yield o
+            return
         # generator context manager defined in the repository?
         gen = self.resolve_contextmanager(ce, st)
         if gen is not None and gen[0] == "$contract":
